@@ -305,6 +305,8 @@ class Engine:
                 return v
             return VOpt(z3.BoolVal(False), self.coerce(v, ty.args[0], st, node), ty)
         if isinstance(v, VOpt) and k != "opt":
+            if not self.feasible(st, v.is_none):
+                return self.coerce(v.val, ty, st, node)  # the path condition already excludes None (e.g. `x.f is not None and ... x.f ...`)
             raise Unsupported("optional value used where %r expected" % (ty,), node)
         if k in ("atom", "oatom"):
             if isinstance(v, VStr):
@@ -1561,6 +1563,10 @@ class Engine:
                     v = VScalar(self.S.str_const(v.s), T.atom)
                 if isinstance(v, VNone):
                     v = VScalar(self.S.NONE, T.oatom)
+                if isinstance(v, VPy) and isinstance(v.obj, bool):
+                    v = VScalar(z3.BoolVal(v.obj), T.bool)
+                if isinstance(v, VPy) and isinstance(v.obj, int):
+                    v = VScalar(z3.IntVal(v.obj), T.int)
                 if not isinstance(v, VScalar):
                     raise Unsupported("forking comprehension element of type %s" % type(v).__name__, node)
                 zs.append(v)
@@ -1658,6 +1664,8 @@ class Engine:
         v = vals[0]
         if isinstance(v, VStr):
             v = VScalar(self.S.str_const(v.s), T.atom)
+        if isinstance(v, VPy) and isinstance(v.obj, bool):
+            v = VScalar(z3.BoolVal(v.obj), T.bool)
         if not isinstance(v, VScalar):
             raise Unsupported("list comprehension producing %s" % type(v).__name__, e)
         guard = z3.And(0 <= i, i < n)
